@@ -81,6 +81,11 @@ class Accum(object):
         if kind == "pyro-timeout":
             from Pyro5 import errors as _errors
             raise _errors.TimeoutError("nested call timed out")     # e.g. a proxy call made inside the method failed
+        if kind == "bytes":
+            raise ValueError(b"\x00raw bytes")         # content that json cannot carry
+        if kind == "decimal":
+            import decimal
+            raise ValueError(decimal.Decimal("1.5"))   # content that marshal cannot carry
         raise ZeroDivisionError("division by zero")
 
     @server.expose
